@@ -90,6 +90,10 @@ def tableContext : List String := ["table", "template", "html"]
 def tableBodyContext : List String := ["tbody", "tfoot", "thead", "template", "html"]
 def tableRowContext : List String := ["tr", "template", "html"]
 
+/-- "in table": "A character token, if the current node is table, tbody, template, tfoot, thead, or tr
+element" — the current nodes under which characters are collected as pending table character tokens -/
+def tableTextCurrentNodes : List String := ["table", "tbody", "template", "tfoot", "thead", "tr"]
+
 /-- the elements that may be open at "stop parsing" / `</body>` without a parse error -/
 def bodyEndOk : List String := [
   "dd", "dt", "li", "optgroup", "option", "p", "rb", "rp", "rt", "rtc", "tbody", "td", "tfoot", "th",
